@@ -51,6 +51,10 @@ Lemma K_draw_y w i c : draw_y w i c = w - c. Proof. reflexivity. Qed.
 Lemma K_draw_y_idx w i : draw_y_idx0 w i = i - 1. Proof. reflexivity. Qed.
 Lemma K_draw_ontime y i lo : draw_ontime y i lo = lo + y. Proof. reflexivity. Qed.
 Lemma K_draw_ontime_idx y i : draw_ontime_idx0 y i = i - 1. Proof. reflexivity. Qed.
+Lemma K_draw_clip o i up lo :
+  draw_clip o i up lo = Z.min o (if lo <? up then up - 1 else if up <? lo then up + 1 else up)
+  /\ draw_clip_idx0 o i = i - 1 /\ draw_clip_idx1 o i = i - 1.
+Proof. repeat split. Qed.
 Lemma K_subset_keep a b t : subset_keep a b t t = (a <=? t) && (t <? b).
 Proof. unfold subset_keep. rewrite Z.geb_leb. reflexivity. Qed.
 Lemma K_subset_keep_mc a b t : subset_keep_mc a b t t = (a <=? t) && (t <? b).
@@ -941,14 +945,24 @@ Proof.
   rewrite py_get_nonneg by lia. rewrite Nat2Z.id.
   rewrite nth_error_map, En. cbn [option_map bind fst].
   rewrite K_draw_ontime.
-  exists (l + y). split; [reflexivity|].
-  exists l, u. split; [eapply nth_error_In; exact En|].
+  destruct (K_draw_clip (l + y) (1 + Z.of_nat j) u l) as (Kc & Ki0 & Ki1).
   rewrite zsum_firstn_S in Hb by (rewrite widths_length; exact Hj).
   assert (Hn : nth j (widths arr) 0 = u - l).
   { clear - En. revert j En. induction arr as [|iv r IH]; intros [|j] En; try discriminate.
     - cbn in En. inversion En; subst. reflexivity.
     - cbn in En. cbn [widths map nth]. apply IH. exact En. }
-  unfold y. lia.
+  assert (Hly : l <= l + y < u) by (unfold y; lia).
+  destruct (K_draw_clip (l + y) (1 + Z.of_nat j) 0 0) as (_ & Kj0 & Kj1).
+  rewrite Kj0, Kj1.
+  replace (1 + Z.of_nat j - 1) with (Z.of_nat j) by lia.
+  rewrite !py_get_nonneg by lia. rewrite Nat2Z.id.
+  rewrite !nth_error_map, En. cbn [option_map bind fst snd].
+  rewrite Kc.
+  assert (El : (l <? u) = true) by (apply Z.ltb_lt; lia).
+  rewrite El.
+  replace (Z.min (l + y) (u - 1)) with (l + y) by lia.
+  exists (l + y). split; [reflexivity|].
+  exists l, u. split; [eapply nth_error_In; exact En|]. lia.
 Qed.
 
 Theorem draw_spec ivs window w :
